@@ -20,12 +20,12 @@ Local Open Scope list_scope.
 (* 3. the per-call step, all five calls                                                                *)
 
 Theorem sim_step : forall orc chunk s s' st valid encs prev c,
-  Sim s st valid encs prev -> call_good c -> meta_guess_b s c = true -> oracle_ok_call orc c ->
+  Sim s st valid encs prev -> call_good c -> meta_enc_b s c = true -> meta_guess_b s c = true -> oracle_ok_call orc c ->
   do_call c s = (s', Ok tt) -> 0 < chunk ->
   (Z.of_nat (length (w_out s')) <= sys_maxsize)%Z ->
   step_ok orc chunk s st valid encs prev c s'.
 Proof.
-  intros orc chunk s s' st valid encs prev c HS Hg Hguess Horc Hcall Hchunk Hsize.
+  intros orc chunk s s' st valid encs prev c HS Hg Hmenc Hguess Horc Hcall Hchunk Hsize.
   destruct c as [e|e|text enc ind le mt|md enc fmt|content dt enc le]; cbn [call_good] in Hg.
   - destruct (sim_step_container orc chunk (NewChange e) e s s' st valid encs prev (or_introl eq_refl) HS Hg Hcall Hchunk)
       as (new & Hout & Hstep).
@@ -76,29 +76,31 @@ Proof.
 Qed.
 
 Lemma sim_run : forall orc chunk cs s st valid encs prev,
-  Sim s st valid encs prev -> Forall call_good cs -> accepted s cs -> guesses_ok s cs -> oracle_ok orc cs ->
+  Sim s st valid encs prev -> Forall call_good cs -> accepted s cs -> metas_encoded s cs -> guesses_ok s cs ->
+  oracle_ok orc cs ->
   0 < chunk -> (Z.of_nat (length (w_out (snd (run_calls s cs)))) <= sys_maxsize)%Z ->
   forall suf rest, w_out (snd (run_calls s cs)) = w_out s ++ suf -> remaining (st_stream st) = suf ++ rest ->
   exists st' v' e' p',
     ReaderSpecFacts.run orc chunk st valid encs prev (expected_records s (st_linenum st) cs) st' v' e' p' /\
     remaining (st_stream st') = rest.
 Proof.
-  intros orc chunk. induction cs as [|c t IH]; intros s st valid encs prev HS Hg Hacc Hgs Horc Hchunk Hsize suf rest Hout Hrem.
+  intros orc chunk. induction cs as [|c t IH]; intros s st valid encs prev HS Hg Hacc Hme Hgs Horc Hchunk Hsize suf rest Hout Hrem.
   - cbn [run_calls snd] in Hout. rewrite <- (app_nil_r (w_out s)) in Hout at 1. apply app_inv_head in Hout. subst suf.
     exists st, valid, encs, prev. split; [constructor|exact Hrem].
   - destruct (accepted_cons _ _ _ Hacc) as (s' & Hcall & Hacc').
     inversion Hg as [|? ? Hgc Hgt]; subst. inversion Horc as [|? ? Hoc Hot]; subst.
     cbn [guesses_ok] in Hgs. destruct Hgs as [Hgc' Hgt']. rewrite Hcall in Hgt'. cbn [fst] in Hgt'.
+    cbn [metas_encoded] in Hme. destruct Hme as [Hmc Hmt]. rewrite Hcall in Hmt. cbn [fst] in Hmt.
     rewrite WriterFacts.run_calls_cons in Hout, Hsize. cbn [snd] in Hout, Hsize. rewrite Hcall in Hout, Hsize. cbn [fst] in Hout, Hsize.
     destruct (WriterFacts.C09_append_run t s') as [suf' Hsuf'].
     assert (Hsize' : (Z.of_nat (length (w_out s')) <= sys_maxsize)%Z).
     { rewrite Hsuf', app_length in Hsize. lia. }
-    destruct (sim_step orc chunk s s' st valid encs prev c HS Hgc Hgc' Hoc Hcall Hchunk Hsize') as (new & Hnew & Hstep).
+    destruct (sim_step orc chunk s s' st valid encs prev c HS Hgc Hmc Hgc' Hoc Hcall Hchunk Hsize') as (new & Hnew & Hstep).
     assert (Esuf : suf = new ++ suf').
     { rewrite Hsuf', Hnew, <- app_assoc in Hout. apply app_inv_head in Hout. symmetry. exact Hout. }
     subst suf. rewrite <- app_assoc in Hrem.
     destruct (Hstep (suf' ++ rest) Hrem) as (st1 & v1 & e1 & p1 & Hy & HS1 & Hrem1 & Hline1).
-    destruct (IH s' st1 v1 e1 p1 HS1 Hgt Hacc' Hgt' Hot Hchunk Hsize suf' rest Hsuf' Hrem1) as (st' & v' & e' & p' & Hrun & Hrem').
+    destruct (IH s' st1 v1 e1 p1 HS1 Hgt Hacc' Hmt Hgt' Hot Hchunk Hsize suf' rest Hsuf' Hrem1) as (st' & v' & e' & p' & Hrun & Hrem').
     exists st', v', e', p'. split; [|exact Hrem'].
     cbn [expected_records]. rewrite Hcall. cbn [fst]. rewrite <- Hline1.
     econstructor; [exact Hy|exact Hrun].
@@ -113,18 +115,22 @@ Proof.
   rewrite firstn_nil. cbn. reflexivity.
 Qed.
 
+(* [metas_encoded s0 cs] (RoundTripSim.v): at every write_meta of the program an encoding is in force.  Without it
+   the statement is false of the fixed writer: DiffXWriter(encoding=None) now accepts write_meta, writes the JSON
+   as bytes, and the reader asks the json oracle about BYTES, which [oracle_ok] says nothing about
+   ([C01_round_trip_unencoded_refuted] in RoundTripCor.v). *)
 Theorem C01_round_trip : forall enc0 ver s0 cs orc chunk,
   writer_init enc0 ver = (s0, Ok tt) -> enc_ok enc0 ->
-  Forall call_good cs -> accepted s0 cs -> guesses_ok s0 cs -> oracle_ok orc cs ->
+  Forall call_good cs -> accepted s0 cs -> metas_encoded s0 cs -> guesses_ok s0 cs -> oracle_ok orc cs ->
   0 < chunk -> (Z.of_nat (length (w_out (snd (run_calls s0 cs)))) <= sys_maxsize)%Z ->
   read_all orc chunk (w_out (snd (run_calls s0 cs))) = (main_record enc0 ver :: expected_records s0 1 cs, TEnd).
 Proof.
-  intros enc0 ver s0 cs orc chunk Hinit He Hg Hacc Hgs Horc Hchunk Hsize.
+  intros enc0 ver s0 cs orc chunk Hinit He Hg Hacc Hme Hgs Horc Hchunk Hsize.
   destruct (WriterFacts.C09_append_run cs s0) as [suf Hsuf].
   set (data := w_out (snd (run_calls s0 cs))) in *.
   destruct (sim_init orc chunk enc0 ver s0 Hinit He Hchunk suf) as (st1 & v1 & e1 & Hmain & HS1 & Hrem1 & Hline1 & _).
   rewrite <- Hsuf in Hmain.
-  destruct (sim_run orc chunk cs s0 st1 v1 e1 0 HS1 Hg Hacc Hgs Horc Hchunk Hsize suf [] Hsuf)
+  destruct (sim_run orc chunk cs s0 st1 v1 e1 0 HS1 Hg Hacc Hme Hgs Horc Hchunk Hsize suf [] Hsuf)
     as (st' & v' & e' & p' & Hrun & Hrem'); [rewrite app_nil_r; exact Hrem1|].
   rewrite Hline1 in Hrun.
   assert (Hrun0 : ReaderSpecFacts.run orc chunk (ReaderSpecFacts.init_state data) [GenSections.sec_main] [None] 0
